@@ -29,7 +29,7 @@ static void m_put(model_t *m, int name, int v, int uniq, int top) {
 /* index of the i-th entry in lookup order */
 static int lk(const model_t *m, int i) { return FWD ? i : m->n - 1 - i; }
 
-enum { OP_PUT, OP_REMOVE, OP_REMOVEOBJ, OP_SORT, OP_CLEAR, OP_IOFAIL };
+enum { OP_PUT, OP_REMOVE, OP_REMOVEOBJ, OP_SORT, OP_CLEAR, OP_IOFAIL, OP_ALIAS };
 typedef struct { int kind, k, v; const char *label; } op_t;
 static op_t OPS[96]; static int NOPS;
 static const char *op_label(int op) { return OPS[op].label; }
@@ -184,6 +184,24 @@ static int apply(qlisttbl_t *t, model_t *m, const op_t *op, int check, const cha
             memmove(m->nm + idx, m->nm + idx + 1, sizeof(int) * (m->n - idx - 1)); memmove(m->vl + idx, m->vl + idx + 1, sizeof(int) * (m->n - idx - 1)); m->n--;
             break;
         }
+        case OP_ALIAS: {   /* the name argument is the table's own key string of the k-th entry (zero-copy getnext): remove(name) / putstr(name, v) */
+            if (op->k >= m->n) return 1;
+            int idx = lk(m, op->k), nm = m->nm[idx];
+            if (op->v == 1) { int after_n = m->n - (UNIQ ? m_count_matching(m, nm) : 0) + 1; if (after_n > L) return 1; }
+            qlisttbl_obj_t ob; memset(&ob, 0, sizeof ob); int c = 0;
+            while (t->getnext(t, &ob, NULL, false) && c < op->k) c++;
+            if (op->v == 0) {
+                int want = m_count_matching(m, nm);
+                size_t r = t->remove(t, ob.name);
+                if (check && (int)r != want) vc_viol("multimap:remove-count", "%s: remove(key string of entry %d itself) returned %zu, %d entries match", after, op->k, r, want);
+                m_remove_matching(m, nm);
+            } else {
+                bool r = t->putstr(t, ob.name, (const char *)VAL[0].b);
+                if (check && !r) vc_viol("multimap:put-failed", "%s: putstr(key string of entry %d itself) returned false", after, op->k);
+                m_put(m, nm, 0, UNIQ, TOP);
+            }
+            break;
+        }
         case OP_IOFAIL: {   /* load of a file that cannot be read / save to a path that cannot be written: refused, nothing changes (also not the insert mode) */
             errno = 0;
             if (op->k == 0) { ssize_t r = t->load(t, "/nonexistent-dir/none.txt", '=', true); if (check && r != -1) vc_viol("saveload:missing-file", "%s: load of a missing file returned %zd", after, r); }
@@ -233,6 +251,7 @@ static void setup(void) {
     for (int k = 0; k < 3; k++) for (int v = 0; v < NV; v++) OPS[NOPS++] = (op_t){OP_PUT, k, v, VAL[v].kind == 0 ? "qlisttbl_putstr" : VAL[v].kind == 1 ? "qlisttbl_putint" : "qlisttbl_put"};
     for (int k = 0; k < 4; k++) OPS[NOPS++] = (op_t){OP_REMOVE, k, 0, "qlisttbl_remove"};
     for (int i = 0; i < L; i++) for (int nm = 0; nm < 2; nm++) OPS[NOPS++] = (op_t){OP_REMOVEOBJ, i, nm, "qlisttbl_removeobj"};
+    for (int i = 0; i < L; i++) { OPS[NOPS++] = (op_t){OP_ALIAS, i, 0, "qlisttbl_remove"}; OPS[NOPS++] = (op_t){OP_ALIAS, i, 1, "qlisttbl_putstr"}; }
     OPS[NOPS++] = (op_t){OP_SORT, 0, 0, "qlisttbl_sort"};
     OPS[NOPS++] = (op_t){OP_IOFAIL, 0, 0, "qlisttbl_load"}; OPS[NOPS++] = (op_t){OP_IOFAIL, 1, 0, "qlisttbl_save"};
     OPS[NOPS++] = (op_t){OP_CLEAR, 0, 0, "qlisttbl_clear"};
